@@ -93,6 +93,10 @@ func applicable(dir, constraint int) bool {
 // predMet: is the case's error predicate met by what the scripted call does?
 func predMet(c caseSpec) bool {
 	failed := c.beh != bRight && c.beh != bWrong && c.beh != bNothing && c.beh != bEmptied
+	if c.beh == bReturnBadError {
+		// the error is there but its text cannot be had: only predicates that do not read it can be met
+		return c.pred == pAny || c.pred == pCustomAccept || c.pred == pCustomAcceptNil
+	}
 	switch c.pred {
 	case pCustomAcceptNil:
 		return true
@@ -249,6 +253,8 @@ func predicate(c caseSpec, i int) test.AssertErrorFunc {
 		return func(t test.TestingT, err error, failInfo string) bool { return true }
 	case pMatchDotAll:
 		return test.ErrorMatch("^" + regexp.QuoteMeta(short) + ".+$")
+	case pCustomFailNow:
+		return func(t test.TestingT, err error, failInfo string) bool { t.FailNow(); return false }
 	}
 	return test.ErrorMatch("(")
 }
@@ -406,6 +412,17 @@ func runEnc[T any](l *listRun, ls listSpec, mk func(i int, c caseSpec) T) {
 		for i, c := range ls.cases {
 			cases[i] = test.CaseText[T]{Constraint: constraints[c.constraint], Before: hook[test.CaseText[T]](l, i, c.before, "before"), After: hook[test.CaseText[T]](l, i, c.after, "after"),
 				Error: listedPred(i, c), Data: listedData(i, c), Value: listedValue(i, c)}
+			if c.beforeSetsAfter {
+				i := i
+				after := cases[i].After
+				cases[i].After = nil
+				cases[i].Before = func(idx int, cc *test.CaseText[T]) error {
+					l.hookIndex("before", i, idx)
+					l.seen("before", i)
+					cc.After = after
+					return nil
+				}
+			}
 			if c.adjustAfter {
 				i, c := i, c
 				cases[i].After = func(idx int, cc *test.CaseText[T]) error {
@@ -443,6 +460,17 @@ func runEnc[T any](l *listRun, ls listSpec, mk func(i int, c caseSpec) T) {
 		for i, c := range ls.cases {
 			cases[i] = test.CaseBinary[T]{Constraint: constraints[c.constraint], Before: hook[test.CaseBinary[T]](l, i, c.before, "before"), After: hook[test.CaseBinary[T]](l, i, c.after, "after"),
 				Error: listedPred(i, c), Data: binData(listedData(i, c), c), Value: listedValue(i, c)}
+			if c.beforeSetsAfter {
+				i := i
+				after := cases[i].After
+				cases[i].After = nil
+				cases[i].Before = func(idx int, cc *test.CaseBinary[T]) error {
+					l.hookIndex("before", i, idx)
+					l.seen("before", i)
+					cc.After = after
+					return nil
+				}
+			}
 			if c.adjustAfter {
 				i, c := i, c
 				cases[i].After = func(idx int, cc *test.CaseBinary[T]) error {
@@ -480,6 +508,17 @@ func runEnc[T any](l *listRun, ls listSpec, mk func(i int, c caseSpec) T) {
 		for i, c := range ls.cases {
 			cases[i] = test.CaseJSON[T]{Constraint: constraints[c.constraint], Before: hook[test.CaseJSON[T]](l, i, c.before, "before"), After: hook[test.CaseJSON[T]](l, i, c.after, "after"),
 				Error: listedPred(i, c), Data: listedData(i, c), Value: listedValue(i, c)}
+			if c.beforeSetsAfter {
+				i := i
+				after := cases[i].After
+				cases[i].After = nil
+				cases[i].Before = func(idx int, cc *test.CaseJSON[T]) error {
+					l.hookIndex("before", i, idx)
+					l.seen("before", i)
+					cc.After = after
+					return nil
+				}
+			}
 			if c.adjustAfter {
 				i, c := i, c
 				cases[i].After = func(idx int, cc *test.CaseJSON[T]) error {
@@ -676,6 +715,9 @@ func judge(ls listSpec, l *listRun, escaped interface{}) *core.Violation {
 		if !applicable(ls.dir, c.constraint) {
 			continue
 		}
+		if l.exited && i > l.exitedAt {
+			break // a collaborator called FailNow and the TestingT ended the goroutine, as *testing.T does: the rest of the list was never run
+		}
 		want := unsatisfied(ls.dir, c)
 		got := l.failures[i] > 0
 		if want && !got {
@@ -784,6 +826,12 @@ func normalise(ls *listSpec) {
 		}
 		if c.adjustAfter {
 			c.after = hPass
+		}
+		if c.beforeSetsAfter && (c.adjust || c.adjustAfter || c.before != hAbsent && c.before != hPass || c.after == hAbsent || c.nilValue || c.nilIface || c.nilData || c.beh == bNilReceiver) {
+			c.beforeSetsAfter = false
+		}
+		if c.beforeSetsAfter {
+			c.before = hPass
 		}
 		if c.adjustPred && !c.adjust {
 			c.adjustPred = false // only a case with an adjusting Before hook has one that installs the predicate
